@@ -1,6 +1,35 @@
-"""C04 — see DESIGN.md §5; shared wrapping engine (runner/wrapeng.py, spec/Wrap.tla, spec/WrapV.tla)."""
+"""C04 — see DESIGN.md §5; shared wrapping engine (runner/wrapeng.py, spec/Wrap.tla, spec/WrapV.tla).
+
+Additionally (flow M, diagnostic): the implementation model spec/WrapImpl.tla (PlusCal transcription of
+LineWrapper's state machine) is model-checked against the same predicates, and its two "repair switches"
+are turned off in turn: TLC must then find the historical counterexamples (if it does not, the model or
+the predicates have become vacuous and the check is undecided, never a violation)."""
+import re
+
 from . import wrapeng
+from .common import Undecided, NCPU
+
+
+def model(c):
+    thorough = c.tier == "thorough"
+    cfg = "WrapImpl.cfg"
+    if thorough:
+        src = open(c.specdir + "/WrapImpl.cfg").read().replace("MaxN = 3", "MaxN = 4")
+        open(c.specdir + "/WrapImpl4.cfg", "w").write(src)
+        cfg = "WrapImpl4.cfg"
+    r = c.tlc_ok("WrapImpl", cfg=cfg, workers=NCPU, timeout=3000, heap="8g")
+    c.extra["implementation_model"] = {"cfg": cfg, "distinct_states": r.distinct, "generated": r.generated,
+                                       "invariants": ["InvSteps", "InvContig", "InvCover", "InvTruncCount", "InvMandatory", "InvNonEmpty", "InvLegalEnd", "InvFits", "InvGreedy"]}
+    sens = {}
+    for name, want in (("WrapImplNoInv.cfg", "InvFits"), ("WrapImplNoTrunc.cfg", "InvLegalEnd")):
+        rr = c.tlc("WrapImpl", cfg=name, workers=NCPU, timeout=1800, heap="8g")
+        m = re.search(r"Invariant (\w+) is violated", rr.out)
+        if not m:
+            raise Undecided("WrapImpl with a repair switched off (%s) no longer violates any invariant: model or predicates vacuous" % name)
+        sens[name] = m.group(1)
+    c.extra["implementation_model"]["sensitivity"] = sens
 
 
 def run(c, a):
+    model(c)
     wrapeng.run_engine(c, "C04")
